@@ -79,3 +79,7 @@ var (
 	VerifSWU    func(u *VerifFE) (x, y *VerifFE)
 	VerifIsoMap func(x, y *VerifFE) (*VerifFE, *VerifFE, uint64)
 )
+
+// VerifCarryCoverage (optional; needs the carry-instrumented fiat overlay): per carry / borrow / select site of the
+// field (scalar=false) or scalar (scalar=true) fiat package, whether it was observed clear and observed set.
+var VerifCarryCoverage func(scalar bool) (sites []string, seen [][2]bool)
